@@ -128,3 +128,18 @@ Proof.
   destruct (fs_get fs t) as [[c|t'|]|]; reflexivity.
 Qed.
 Print Assumptions T08f_reader_open_changes_nothing.
+
+(* ------------------------------------------------------------------------------------------------
+   T08g: the hypothesis `1 <= wo_interval o' of the writer theorems (T01, T08, T09, T10, T12, T20) is met by
+   EVERY value passed to mtbl_writer_options_set_block_restart_interval: the setter clamps to
+   MIN_BLOCK_RESTART_INTERVAL, which gen/Consts.v scrapes from the source (0 when the setter stores the
+   value as given - the pinned code, where an interval of 0 made the block builder fail its assertion
+   on the second entry of a block: defect F13, repaired).  The default interval is at least 1 too. *)
+Theorem T08g_restart_interval_at_least_one :
+  (forall n, 1 <= clamp_restart_interval n) /\ 1 <= DEFAULT_BLOCK_RESTART_INTERVAL.
+Proof.
+  split; [|vm_compute; discriminate]. intros n. unfold clamp_restart_interval.
+  destruct (n <? MIN_BLOCK_RESTART_INTERVAL) eqn:E; [vm_compute; discriminate|].
+  apply N.ltb_ge in E. revert E. change MIN_BLOCK_RESTART_INTERVAL with 1. intros E. exact E.
+Qed.
+Print Assumptions T08g_restart_interval_at_least_one.
